@@ -271,6 +271,23 @@ fn c09_null() {
 
 // ---- C10: the boolean gate ---------------------------------------------------------------------
 
+/// one member of the enumerated signature family (contracts/gen_gate.py): the derivation says whether
+/// the return type is bool; the real gate must agree, and a refusal must precede every OS event.
+pub(crate) fn gate_case(sig: &'static str, returns_bool: bool) {
+    fresh_world();
+    refusal(bit(K_NOT_BOOL), !returns_bool);
+    let v: bool = kani::any();
+    let mut inj = InjectorPP::new();
+    inj.when_called(arena_fp(0, sig)).will_return_boolean(v);
+    // reached only when the gate accepted
+    unsafe {
+        assert!(returns_bool, "OBL:C10.gate.refuses: forcing a boolean is refused for a function whose return type is not exactly bool");
+        assert!(REC_CALLS == 1 && REC_IS_BOOL && REC_BOOL == v && inj.guards.len() == 1, "OBL:C10.gate.accepts: a function returning bool is accepted and the requested value reaches the installer");
+    }
+    std::mem::forget(inj);
+    kani::cover!(true, "COVER:end");
+}
+
 /// cross-check of the gate on unstructured input (thorough): for ALL printable strings of length <= L
 /// that contain no "fn(" at all the gate refuses (there is no function type whose return could be bool).
 #[kani::proof]
